@@ -192,6 +192,7 @@ def check(run, prog, tier):
     sleeps_ok = True
     rounds = 0
     none_break = False
+    ends_early = False
     grouped_ok = None
     seen_fresh = False
     unfilled = set()
@@ -245,9 +246,16 @@ def check(run, prog, tier):
                     else:
                         seen_fresh = True
         rounds = max(rounds, n_rounds)
+        saw_none = False
         for c, v, _, _ in p.conds:
             if strip_sites(c) == ("cmp", "is", ("attr", ("attr", me, "timings"), "SUBSCRIBE_REFRESH_INTERVAL"), const(None)) and v and p.returns():
                 none_break = True
+                saw_none = True
+            if strip_sites(c) == ("cmp", "is not", ("attr", ("attr", me, "timings"), "SUBSCRIBE_REFRESH_INTERVAL"), const(None)) and not v and p.returns():
+                none_break = True
+                saw_none = True
+        if (p.returns() or p.outcome[0] == "fall") and not p.truncated and not saw_none and not any(e.kind == "await" and e.raised for e in p.events):
+            ends_early = True
     fresh = fresh and seen_fresh
     if unfilled and not seen_fresh:
         complete = False  # what is sent is taken from something that is never filled from the requested set
@@ -260,6 +268,10 @@ def check(run, prog, tier):
     run.ob("M4", f"{m['_subscribe'].qual}:sleeps-refresh-interval", sleeps_ok and rounds >= 2, loc(m["_subscribe"]),
            f"rounds are separated by sleep(SUBSCRIBE_REFRESH_INTERVAL); {rounds} rounds on the longest enumerated path")
     run.ob("M4", f"{m['_subscribe'].qual}:no-refresh-when-interval-is-None", none_break, loc(m["_subscribe"]), "with no refresh interval exactly one round is sent")
+    run.ob("M4", f"{m['_subscribe'].qual}:refreshes-while-there-is-an-interval", not ends_early, loc(m["_subscribe"]),
+           "the refresh task ends on its own only when no refresh interval is configured (or when it is cancelled)" if not ends_early else
+           "the refresh task can end on its own although a refresh interval is configured (e.g. for an infinite TTL): a subscription that stays "
+           "requested is not sent again - a server that lost its state never gets it back")
     # every round sends to every group: loop over _group_entries().items()
     it_ok = any(shp is not None and shp[1] is not None and ((shp[1][0] == "item" and shp[1][1][0] == "elem") or shp[1][0] == "elem")
                 for p in sp for e in p.events if e.kind == "call" and not e.sched for shp in transmissions(e))
